@@ -397,7 +397,7 @@ Definition lhs (prefer_stmt : bool) : M (option (cmarker * bool)) :=
   k <- current ;;
   if kin k [K_TILDE; K_BANG; K_MINUS] then
     m <- start ;; bump_any ;;;
-    g_expr_bp R None prefer_stmt 255 ;;;
+    g_expr_bp R None prefer_stmt 14 ;;;
     cm <- complete m K_PREFIX_EXPR ;; ret (Some (cm, false))
   else
     a <- atom_expr ;;
@@ -413,35 +413,35 @@ Definition current_op_val (p : nat) : nat * N * bool :=
   let att k := nth_at_pure p 0 k in
   let k := kind_at p in
   if keq k K_PIPE then
-    if att K_PIPE2 then (3, K_PIPE2, false) else if att K_PIPEEQ then (1, K_PIPEEQ, true) else (6, K_PIPE, false)
+    if att K_PIPE2 then (3, K_PIPE2, false) else if att K_PIPEEQ then (1, K_PIPEEQ, true) else (5, K_PIPE, false)
   else if keq k K_R_ANGLE then
-    if att K_SHREQ then (1, K_SHREQ, true) else if att K_SHR then (9, K_SHR, false)
-    else if att K_GTEQ then (5, K_GTEQ, false) else (5, K_R_ANGLE, false)
+    if att K_SHREQ then (1, K_SHREQ, true) else if att K_SHR then (10, K_SHR, false)
+    else if att K_GTEQ then (9, K_GTEQ, false) else (9, K_R_ANGLE, false)
   else if keq k K_EQ then
-    if att K_FAT_ARROW then NOT_AN_OP else if att K_EQ2 then (5, K_EQ2, false) else (12, K_EQ, true)
+    if att K_FAT_ARROW then NOT_AN_OP else if att K_EQ2 then (8, K_EQ2, false) else (13, K_EQ, true)
   else if keq k K_L_ANGLE then
-    if att K_LTEQ then (5, K_LTEQ, false) else if att K_SHLEQ then (1, K_SHLEQ, true)
-    else if att K_SHL then (9, K_SHL, false) else (5, K_L_ANGLE, false)
+    if att K_LTEQ then (9, K_LTEQ, false) else if att K_SHLEQ then (1, K_SHLEQ, true)
+    else if att K_SHL then (10, K_SHL, false) else (9, K_L_ANGLE, false)
   else if keq k K_PLUS then
     if att K_PLUSEQ then (1, K_PLUSEQ, true) else if att K_DOUBLE_PLUS then (2, K_DOUBLE_PLUS, false)
-    else (10, K_PLUS, false)
+    else (11, K_PLUS, false)
   else if keq k K_STAR then
-    if att K_DOUBLE_STAR then (7, K_DOUBLE_STAR, false) else if att K_STAREQ then (1, K_STAREQ, true)
-    else (11, K_STAR, false)
+    if att K_DOUBLE_STAR then (15, K_DOUBLE_STAR, true) else if att K_STAREQ then (1, K_STAREQ, true)
+    else (12, K_STAR, false)
   else if keq k K_CARET then
-    if att K_CARETEQ then (1, K_CARETEQ, true) else (7, K_CARET, false)
+    if att K_CARETEQ then (1, K_CARETEQ, true) else (6, K_CARET, false)
   else if keq k K_PERCENT then
-    if att K_PERCENTEQ then (1, K_PERCENTEQ, true) else (11, K_PERCENT, false)
+    if att K_PERCENTEQ then (1, K_PERCENTEQ, true) else (12, K_PERCENT, false)
   else if keq k K_AMP then
-    if att K_AMPEQ then (1, K_AMPEQ, true) else if att K_AMP2 then (4, K_AMP2, false) else (8, K_AMP, false)
+    if att K_AMPEQ then (1, K_AMPEQ, true) else if att K_AMP2 then (4, K_AMP2, false) else (7, K_AMP, false)
   else if keq k K_SLASH then
-    if att K_SLASHEQ then (1, K_SLASHEQ, true) else (11, K_SLASH, false)
+    if att K_SLASHEQ then (1, K_SLASHEQ, true) else (12, K_SLASH, false)
   else if keq k K_DOT then
     if att K_DOT2EQ then (2, K_DOT2EQ, false) else if att K_DOT2 then (2, K_DOT2, false) else NOT_AN_OP
   else if keq k K_BANG then
-    if att K_NEQ then (5, K_NEQ, false) else NOT_AN_OP
+    if att K_NEQ then (8, K_NEQ, false) else NOT_AN_OP
   else if keq k K_MINUS then
-    if att K_MINUSEQ then (1, K_MINUSEQ, true) else (10, K_MINUS, false)
+    if att K_MINUSEQ then (1, K_MINUSEQ, true) else (11, K_MINUS, false)
   else NOT_AN_OP.
 Definition current_op : M (nat * N * bool) := fun s => Ok (current_op_val (pos s)) s.
 
